@@ -931,6 +931,11 @@ class Engine:
             return self.call_native(f, args, kwargs)
         if isinstance(f, (staticmethod, classmethod)):
             return self.call(f.__func__, args, kwargs)
+        if type(f).__name__ == '_lru_cache_wrapper' and hasattr(f, '__wrapped__'):
+            # a memo table is hidden state shared by all callers (and all instances): recorded as an ownership violation,
+            # the wrapped function is interpreted
+            self.note_write('lru_cache memo of %s' % getattr(f, '__name__', '?'), f)
+            return self.call(f.__wrapped__, args, kwargs)
         if isinstance(f, types.FunctionType):
             c = self.contracts.get(f)
             if c is not None and f not in self.inline:
@@ -1110,6 +1115,10 @@ class Engine:
         defaults = f.__defaults__ or ()
         for n, d in zip(names[len(names) - len(defaults):], defaults):
             env[n] = d
+        used_default = names[max(len(args), len(names) - len(defaults)):]
+        for n in used_default:
+            if n not in kwargs and n in env:
+                self.note_read('default argument', '%s(%s=...)' % (f.__name__, n), env[n])      # a mutable default is shared state
         if len(args) > len(names):
             if a.vararg is None:
                 raise PyRaise(self.make_exc(TypeError, '%s() takes %d positional arguments but %d were given' % (
@@ -1343,6 +1352,8 @@ class Engine:
 
     # ---------------- attribute / item access
     def getattr(self, o, name):
+        if not isinstance(o, Obj) and getattr(self, 'foreign_store', None) and (id(o), name) in self.foreign_store:
+            return self.foreign_store[(id(o), name)]
         if isinstance(o, Obj):
             if name in ('__class__',):
                 return o.cls
@@ -1362,6 +1373,7 @@ class Engine:
                     if type(d).__name__ in ('member_descriptor', 'getset_descriptor', 'wrapper_descriptor',
                                             'method_descriptor'):
                         break
+                    self.note_read('class attribute', '%s.%s' % (k.__name__, name), d)      # class-level state is shared by all instances
                     return d
             if name in o.attrs:
                 return o.attrs[name]
@@ -1426,6 +1438,13 @@ class Engine:
             return o.sym_setattr(self, name, v)
         if o is None or is_intlike(o) or isinstance(o, (tuple, str)):
             raise PyRaise(self.make_exc(AttributeError, "'%s' object has no attribute '%s'" % (type(o).__name__, name)))
+        if isinstance(o, (types.FunctionType, type, types.ModuleType)):
+            # state kept on a function, class or module object is shared by every instance: an ownership violation (C20); the
+            # value is kept in a shadow map so that the exploration can go on
+            self.note_write('attribute store .%s on %s %s' % (name, type(o).__name__, getattr(o, '__name__', '')), o)
+            self.foreign_store[(id(o), name)] = v
+            self.writes += 1
+            return
         if getattr(self, 'shadow_foreign_stores', False) and self._is_foreign_mutable(o):
             # frame units: the store is recorded as an ownership violation and kept in a shadow map
             self.note_write('attribute store .%s' % name, o)
